@@ -903,6 +903,15 @@ pub fn run(tier: Tier, replay_file: Option<&str>) -> i32 {
         Tier::Quick => all.into_iter().filter(|p| p.small).collect(),
         Tier::Thorough => all,
     };
+    // debugging aid: restrict to programs whose label contains the given text (the run is then
+    // reported as capped / not exhaustive)
+    let selected: Vec<Prog> = match std::env::var("C12_ONLY") {
+        Ok(f) if !f.is_empty() => {
+            ctx.cap_hit(&format!("C12_ONLY={f}: only programs whose label contains this text were run"));
+            selected.into_iter().filter(|p| p.label.contains(&f)).collect()
+        }
+        _ => selected,
+    };
     let preps = prepare(selected, &machinery0);
     let sh = Shared { ctx: &ctx, best: Mutex::new(BTreeMap::new()), machinery: Mutex::new(machinery0.into_inner().unwrap()), fails: AtomicU64::new(0) };
     let cfgs: Vec<Config> = tier.pick(configs_quick(), configs_all());
